@@ -405,6 +405,13 @@ def run(check, an: Analysis):
                    'the spawned coroutine (%s) awaits the contestant and puts exactly its '
                    'result (%d puts on paths)' % (
                        sorted(short(q) for q in monitors), n_put))
+    # results pass through the queue in the order they were put
+    from . import c10, c04
+    c10.check_buffer_fifo(check, an, 'first')
+    # whatever ends the caller inside collect()/first() -- a failure, a cancellation, a
+    # forced close -- the scope closes the remaining activities on its way out
+    check.rule('abort', 'every exit of the scope of collect()/first() closes the rest')
+    c04.check_close_on_every_exit(check, an, 'abort', [SCOPE])
     # aborting the rest: closing children iterates copies (a closed child removes itself)
     for name in ('_close_children', '_close_volatile'):
         fn = an.method(SCOPE, name)
